@@ -134,7 +134,7 @@ package semantic
 //@   ensures result == nil && v.Extends != "" && lastIndex(v.Extends, ".") == -1 ==> inDom(r.ast.Name2Category, v.Extends) && r.ast.Name2Category[v.Extends] == parser.Category_Service
 //@   ensures result == nil && lastIndex(v.Extends, ".") >= 0 ==> v.Reference != nil
 //@   ensures result == nil && old(v.Reference) == nil && lastIndex(v.Extends, ".") >= 0 ==> 0 <= v.Reference.Index && v.Reference.Index < len(r.ast.Includes) && v.Reference.Name == v.Extends[lastIndex(v.Extends, ".")+1:] && IDLPrefix(r.ast.Includes[v.Reference.Index].Path) == v.Extends[:lastIndex(v.Extends, ".")] && inDom(r.ast.Includes[v.Reference.Index].Reference.Name2Category, v.Reference.Name) && r.ast.Includes[v.Reference.Index].Reference.Name2Category[v.Reference.Name] == parser.Category_Service && r.ast.Includes[v.Reference.Index].Used != nil
-//@   ensures forall k int :: 0 <= k && k < len(r.ast.Includes) && r.ast.Includes[k].Used != old(r.ast.Includes[k].Used) ==> result == nil && v.Reference != nil && int32(k) == v.Reference.Index
+//@   ensures forall k int :: 0 <= k && k < len(r.ast.Includes) && r.ast.Includes[k].Used != old(r.ast.Includes[k].Used) ==> result == nil && v.Reference != nil && 0 <= v.Reference.Index && v.Reference.Index < len(r.ast.Includes) && r.ast.Includes[k] == r.ast.Includes[v.Reference.Index]
 //@   modifies v.Reference, parser.Include.Used
 //@   loop 1 invariant v.Reference == old(v.Reference) && wfResolver(r)
 //@   loop 1 invariant forall k int :: 0 <= k && k < len(r.ast.Includes) ==> r.ast.Includes[k].Used == old(r.ast.Includes[k].Used)
